@@ -140,6 +140,9 @@ def make_cfg(spec: dict):
     ek = {}
     for k, v in spec.get("endpoint_kwargs", {}).items():
         ek[k] = [tuple(x) for x in v] if isinstance(v, list) else v
+        if isinstance(v, list) and spec.get("endpoint_repr") == "int8-arrays":
+            # coordinates as they come from mazes read back from a minimal-format archive (int8 arrays)
+            ek[k] = [np.array(x, dtype=np.int8) for x in v]
     filters = [dict(name=f["name"], args=tuple(f.get("args", ())), kwargs=dict(f.get("kwargs", {}))) for f in spec.get("applied_filters", [])]
     kw = dict(
         name=spec["name"],
